@@ -1,9 +1,9 @@
 package main
 
 import (
+	"fmt"
 	"go/types"
 	"sort"
-	"fmt"
 	"strings"
 
 	"golang.org/x/tools/go/ssa"
@@ -216,13 +216,13 @@ func init() {
 
 		// lock-writes
 		owners := map[string]map[string]bool{
-			"lockedValue": {"doProposalAndPolkaCurrent": true, "doCommitValue": true},
-			"lockedRound": {"doProposalAndPolkaCurrent": true, "doCommitValue": true},
-			"validValue":  {"doProposalAndPolkaCurrent": true, "doCommitValue": true},
-			"validRound":  {"doProposalAndPolkaCurrent": true, "doCommitValue": true},
-			"height":      {"doCommitValue": true},
-			"round":       {"resetState": true},
-			"step":        {"resetState": true, "setStepAndSendPrevote": true, "setStepAndSendPrecommit": true},
+			"lockedValue":                   {"doProposalAndPolkaCurrent": true, "doCommitValue": true},
+			"lockedRound":                   {"doProposalAndPolkaCurrent": true, "doCommitValue": true},
+			"validValue":                    {"doProposalAndPolkaCurrent": true, "doCommitValue": true},
+			"validRound":                    {"doProposalAndPolkaCurrent": true, "doCommitValue": true},
+			"height":                        {"doCommitValue": true},
+			"round":                         {"resetState": true},
+			"step":                          {"resetState": true, "setStepAndSendPrevote": true, "setStepAndSendPrecommit": true},
 			"timeoutPrevoteScheduled":       {"resetState": true, "doPolkaAny": true},
 			"timeoutPrecommitScheduled":     {"resetState": true, "doPrecommitAny": true},
 			"lockedValueAndOrValidValueSet": {"resetState": true, "doProposalAndPolkaCurrent": true},
@@ -443,7 +443,6 @@ func c12Thresholds(c *Ctx) {
 	c.floor("thresholds", 9)
 }
 
-
 // heightIndependent: fields of the state machine that deliberately survive a commit.
 var heightIndependent = map[string]string{
 	"stateMachine.lastTriggerSync": "remembers the last height for which a sync was triggered (monotone height marker)",
@@ -641,7 +640,6 @@ func c12LockAndThresholdWrites(c *Ctx) {
 		c.check(ok && !cond[nm] && strings.Contains(v, want) && (strings.Contains(v, "TotalVotingPower(") || strings.Contains(v, "totalVotingPower")), "thresholds-every-height", "StartNewHeight: "+nm, p.Pos(fnPos(f)), "recomputed unconditionally from the validator set of the new height", "StartNewHeight does not unconditionally recompute "+nm+" from the new height's total voting power (got "+v+fmt.Sprintf(", conditional=%v", cond[nm])+"): after the set changes and changes back the thresholds of another height stay in force and a minority can form a quorum")
 	}
 }
-
 
 // c12IsBallotKindTest: v reads element [voteType-typed index] of a ballot value
 // obtained from a lookup in the ballots map (directly, or through a local that
